@@ -5,7 +5,8 @@ cd /verif || exit 2
 for d in seeded/${1:-*}/; do
   id=$(basename "$d")
   patch="/verif/$d/patch.diff"
-  [ -f "/verif/$d/patch_on_tree_before_fix_f7e703f.diff" ] && patch="/verif/$d/patch_on_tree_before_fix_f7e703f.diff"
+  # a seed whose original patch no longer applies after a repair carries an adapted patch
+  for alt in /verif/$d/patch_on_tree_*.diff; do [ -f "$alt" ] && patch="$alt"; done
   checks=$(python3 -c "
 import json,re,sys
 m=json.load(open('/verif/$d/meta.json'))
